@@ -203,6 +203,8 @@ class CFG:
             The reachable symbols of the CFG
         """
         r_symbols = set()
+        if self._start_symbol is None:
+            return r_symbols
         r_symbols.add(self._start_symbol)
         reachable_transition_d = {}
         for production in self._productions:
@@ -527,7 +529,8 @@ class CFG:
                 productions.append(
                     Production(new_variables_d_local[production.head],
                                body))
-            if cfg.start_symbol not in new_variables_d_local:
+            if cfg.start_symbol is None or \
+                    cfg.start_symbol not in new_variables_d_local:
                 # No start symbol: the grammar generates nothing
                 temp = Variable(str(cfg.start_symbol) + SUBS_SUFFIX + str(idx))
                 new_variables_d_local[cfg.start_symbol] = temp
@@ -546,8 +549,10 @@ class CFG:
                     body.append(cfgobj)
             productions.append(Production(new_variables_d[production.head],
                                           body))
-        return CFG(new_vars, None, new_variables_d.get(self._start_symbol),
-                   set(productions))
+        new_start = None
+        if self._start_symbol is not None:
+            new_start = new_variables_d.get(self._start_symbol)
+        return CFG(new_vars, None, new_start, set(productions))
 
     def union(self, other: "CFG") -> "CFG":
         """ Makes the union of two CFGs
@@ -774,6 +779,9 @@ class CFG:
         new_pda : :class:`~pyformlang.pda.PDA`
             The equivalent PDA when accepting on empty stack
         """
+        if self._start_symbol is None:
+            # No start symbol: nothing is generated
+            return pda.PDA()
         state = pda.State("q")
         pda_object_creator = PDAObjectCreator(self._terminals, self._variables)
         input_symbols = {pda_object_creator.get_symbol_from(x)
@@ -832,7 +840,7 @@ class CFG:
             other = other.to_deterministic()
         else:
             raise NotImplementedError
-        if other.is_empty():
+        if other.is_empty() or self._start_symbol is None:
             return CFG()
         generate_empty = self.contains([]) and other.accepts([])
         cfg = self.to_normal_form()
